@@ -80,20 +80,22 @@ def rule_gates(ctx):
     R = "C02.GATE-CBC"
     fi = ctx.index.func(RECLAYER + "_decryptThenMAC")
     g = ctx.an.cfg(fi)
-    cut = {(t.id, "F") for t in g.nodes if t.kind == "test" and norm(t.expr) == "self._readState.encContext"}
+    cut = falsy_edges(g, "self._readState.encContext")
     chk = [t for t in g.nodes if t.kind == "test" and norm(t.expr).startswith("not ct_check_cbc_mac_and_pad(")]
     eff = [t for t in chk if "T" in dead_edge_labels(g, t, _rets(g))]
     must_pass(ctx, R, fi, g, [g.entry], _rets(g), eff, "combined MAC-and-padding check on every accepting path",
               "a CBC record can be accepted without the MAC-and-padding check", cut=cut, start_after=False)
     if eff:
         call = eff[0].expr.operand
-        args = [norm(a) for a in call.args]
+        from .common import resolved_text
+        args = [norm(a) for a in call.args[:5]] + [resolved_text(fi.node, a) for a in call.args[5:]]
+        args[1] = resolved_text(fi.node, call.args[1]) if len(call.args) > 1 else ""
         want = ["data", "self._readState.macContext", "seqnumBytes", "recordType", "self.version",
                 "self._readState.encContext.block_size"]
         ctx.check(R, args == want, fi.qname, "arguments of ct_check_cbc_mac_and_pad",
                   "the MAC-and-padding check must be given (data, read MAC context, sequence number, record "
                   "type, version, block size); got %s" % args, fi.loc(eff[0].ast))
-    asserts = [n for n in g.nodes if n.kind == "assert" and norm(n.expr) == "self._readState.macContext"]
+    asserts = [n for n in g.nodes if n.kind == "assert" and resolved_text(fi.node, n.expr) == "self._readState.macContext"]
     ctx.check(R, bool(asserts), fi.qname, "CBC path requires a MAC context",
               "the CBC unprotect path must insist on a MAC context", fi.loc())
     # stream
@@ -407,12 +409,23 @@ def rule_lengths(ctx):
         dict(what="EtM: padding bytes all equal the padding length (TLS)", text="not paddingGood", fail="T",
              protects=_stmt("buf = buf[:-totalPaddingLength]")),
     ], sinks="return")
-    fi = ctx.index.func(RECLAYER + "_macThenDecrypt")
-    src = [norm(x) for x in own_nodes(fi.node)]
-    ok = any(s == "if byte != paddingLength: paddingGood = False" or "byte != paddingLength" in s for s in src) and \
-        "paddingBytes = buf[-totalPaddingLength:-1]" in src and any("self.version != (3, 0)" in s for s in src)
-    ctx.check(R, ok, fi.qname, "EtM: every padding byte compared with the padding length (except SSLv3)",
-              "the encrypt-then-MAC path must compare every padding byte with the padding length", fi.loc())
+    # EtM padding: decided over small decrypted buffers (the function is walked, nothing is run)
+    from .common import spec_rows
+
+    def pad_bad(e):
+        b, v = e["buf"], e["self.version"]
+        pl = b[-1]
+        if pl + 1 > len(b):
+            return True
+        return v != (3, 0) and any(x != pl for x in b[-(pl + 1):-1])
+    spec_rows(ctx, R, RECLAYER + "_macThenDecrypt", [
+        dict(what="EtM: every padding byte compared with the padding length (except SSLv3)",
+             dom={"self._readState.macContext": [None], "self._readState.encContext": [True], "blockLength": [4],
+                  "self.version": [(3, 0), (3, 1)],
+                  "buf": [b"dddd\x03\x03\x03\x03", b"dddd\x03\x02\x03\x03", b"dddd\x02\x03\x03\x03", b"ddd\x00",
+                          b"dddd\x07\x07\x07\x07", b"\x07\x07\x07\x07\x07\x07\x07\x07", b"d\x09\x09\x09"]},
+             abort=pad_bad,
+             msg="the encrypt-then-MAC path must compare every padding byte with the padding length")])
     gate_table(ctx, R, RECLAYER + "_decryptThenMAC", [
         dict(what="CBC: ciphertext is a multiple of the block size before decryption",
              text="len(data) % blockLength != 0", fail="T", protects=_stmt("encContext.decrypt(data)")),
